@@ -1,5 +1,6 @@
 """C01 -- stored values come back identical, whatever their type, size or storage path."""
 import io
+import math
 import os
 import pickle
 import sqlite3
@@ -15,7 +16,7 @@ from val import Stream, same
 ID = 'C01'
 COQ_PROP = 'C01'
 LEVEL = 'proof'
-TRANSLATE = ['disk']
+TRANSLATE = ['disk', 'sql']      # sql: the paths of Cache.set/add/push and _transact a value travels through
 TRUSTED = [
     'coq/base/Val.v: CPython sqlite3 binding (int64 range, NaN->NULL, lone surrogates rejected) and column decoding; coq/base/DiskBase.v: POSIX text-mode newline semantics of open(); both hand-written, compared with the implementation on every case of this run',
     'codec hypotheses (Section-free, explicit premises of the theorems): pickle.load(pickle.dumps(v, protocol)) = v; json/zlib round trip for JSONDisk; UTF-8 is injective on text without lone surrogates. Checked on every generated value',
@@ -586,6 +587,99 @@ def overlapping_stores(ctx, res, stats, thorough):
     res.sample({'check': 'overlapping_stores', 'kinds': SHARED_KINDS, 'scenarios': st['scenarios'], 'overlapped': st['overlapped']})
 
 
+def same_exact(a, b):
+    """same type and same value, sign- and NaN-aware (0.0 is not -0.0, 1 is not 1.0, True is not 1)"""
+    if type(a) is not type(b):
+        return False
+    if isinstance(a, float):
+        return (a != a and b != b) or (a == b and math.copysign(1.0, a) == math.copysign(1.0, b))
+    if isinstance(a, (tuple, list)):
+        return len(a) == len(b) and all(same_exact(x, y) for x, y in zip(a, b))
+    return a == b
+
+
+def overwrites(ctx, res, stats):
+    """Whatever value is stored LAST under a key is what every lookup returns -- also when the value stored before compares
+    equal to it in Python but is another number: 0.0 / -0.0, 1 / 1.0 / True, 2**53 / float(2**53), and the same inside containers,
+    on both sides of the file threshold, through Cache, FanoutCache, Index and Deque element assignment."""
+    pairs = [(0.0, -0.0), (-0.0, 0.0), (1, 1.0), (1.0, 1), (True, 1), (1, True), (0, False), (False, 0.0), (2 ** 53, float(2 ** 53)),
+             (float(2 ** 53), 2 ** 53), (-1, -1.0), ((1, 2), (1.0, 2)), ((0.0,), (-0.0,)), ('a' * 9, 'a' * 9), (b'x' * 9, b'x' * 9),
+             (10 ** 30, float(10 ** 30))]
+    n = 0
+    for m in (0, 8, BIG):
+        d = ctx.scratch('c01ow')
+        c = diskcache.Cache(d, disk_min_file_size=m, eviction_policy='none')
+        f = diskcache.FanoutCache(ctx.scratch('c01owf'), shards=2, disk_min_file_size=m, eviction_policy='none')
+        ix = diskcache.Index.fromcache(diskcache.Cache(ctx.scratch('c01owi'), disk_min_file_size=m, eviction_policy='none'))
+        dq = diskcache.Deque.fromcache(diskcache.Cache(ctx.scratch('c01owd'), disk_min_file_size=m, eviction_policy='none'))
+        dq.append('slot')
+        for i, (v1, v2) in enumerate(pairs):
+            for name, put, get in (('Cache.set', lambda v: c.set('k%d' % i, v), lambda: c.get('k%d' % i)),
+                                   ('Cache[]', lambda v: c.__setitem__('i%d' % i, v), lambda: c['i%d' % i]),
+                                   ('FanoutCache.set', lambda v: f.set('k%d' % i, v), lambda: f.get('k%d' % i)),
+                                   ('Index[]', lambda v: ix.__setitem__('k%d' % i, v), lambda: ix['k%d' % i]),
+                                   ('Deque[0]', lambda v: dq.__setitem__(0, v), lambda: dq[0])):
+                put(v1)
+                put(v2)
+                got = get()
+                n += 1
+                res.count(['overwrite', m, name, repr(v1), repr(v2)], nontrivial=True)
+                if not same_exact(got, v2):
+                    res.violations.append(fw.Violation('overwrite_kept_old_value', '%s: stored %r, then stored %r under the same key; the lookup returns %r (%s)'
+                                                       % (name, v1, v2, got, type(got).__name__),
+                                                       {'check': 'overwrite', 'min_file_size': m, 'accessor': name, 'first': repr(v1), 'second': repr(v2)}))
+        for o in (c, f, ix.cache, dq.cache):
+            o.close()
+    stats['overwrite_cases'] = n
+
+
+def retry_after_contention(ctx, res, stats):
+    """A store that has to WAIT for the write lock (another connection holds it at the first BEGIN attempt and lets go after k failed
+    attempts) stores the value all the same: afterwards every accessor returns it, for inline and file-backed values and streams."""
+    import sqlite3
+    import sched
+    n = 0
+    for m in (8, BIG):
+        for k in (1, 3):
+            for vi, v in enumerate([b'y' * (m + 2), 'z' * (m + 2), ('t', 'u' * (m + 2)), 5, 'sm', Stream(b'0123456789' * (m // 5 + 1))]):
+                d = ctx.scratch('c01rc')
+                diskcache.Cache(d, disk_min_file_size=m).close()
+                holder = sqlite3.connect(os.path.join(d, 'cache.db'), isolation_level=None, timeout=0)
+                begins = [0]
+
+                def before(ev):
+                    if ev.kind == 'sql' and ev.what == 'BEGIN':
+                        begins[0] += 1
+                        if begins[0] == k + 1:
+                            holder.execute('COMMIT')
+                tracer = sched.Tracer(before=before)
+                is_stream = isinstance(v, Stream)
+                want = v.data if is_stream else v
+                try:
+                    with tracer:
+                        c = diskcache.Cache(d, timeout=0, disk_min_file_size=m)
+                        len(c)                              # this thread's connection is open before the lock is taken
+                        holder.execute('BEGIN IMMEDIATE')
+                        tracer.enable(True)
+                        ok = c.set('k', v.open(), read=True, retry=True) if is_stream else c.set('k', v, retry=True)
+                        tracer.enable(False)
+                    got = c.get('k', default='<missing>')
+                    try:
+                        got2 = c['k']
+                    except KeyError:
+                        got2 = '<KeyError>'
+                    c.close()
+                finally:
+                    holder.close()
+                n += 1
+                res.count(['retry-contention', m, k, vi], nontrivial=True)
+                if ok is not True or not same_exact(got, want) or not same_exact(got2, want):
+                    res.violations.append(fw.Violation('lost_after_waiting_for_lock', 'set(%s, retry=True) waited through %d failed BEGIN attempts and returned %r; '
+                                                       'get returns %s, [] returns %s' % (short(v), k, ok, short(got), short(got2)),
+                                                       {'check': 'retry_contention', 'min_file_size': m, 'failed_attempts': k, 'value': short(v)}))
+    stats['retry_contention_cases'] = n
+
+
 def witnesses(res):
     """Replay the witnesses of the findings listed for C01 on the implementation."""
     import tempfile, shutil
@@ -646,11 +740,14 @@ def run(ctx, big_budget=False):
         dq.cache.close()
         ix.cache.close()
     faulted_writes(ctx, res, stats)
+    overwrites(ctx, res, stats)
+    retry_after_contention(ctx, res, stats)
     t2 = _t.time()
     overlapping_stores(ctx, res, stats, thorough)
     res.extra['timing']['overlapping_stores_s'] = round(_t.time() - t2, 1)
     res.extra['overlapping_stores'] = stats.get('overlapping_stores')
-    res.extra.update({'faulted_write_cases': stats.get('faulted_writes', 0), 'rejected_by_exception': stats['rejected'], 'value_kinds': stats['kinds'],
+    res.extra.update({'overwrite_cases': stats.get('overwrite_cases'), 'retry_contention_cases': stats.get('retry_contention_cases'),
+                      'faulted_write_cases': stats.get('faulted_writes', 0), 'rejected_by_exception': stats['rejected'], 'value_kinds': stats['kinds'],
                       'file_backed_cases': stats['file_backed'], 'accessor_calls': stats['accessor_calls']})
     witnesses(res)
     return res
